@@ -21,9 +21,11 @@ RULE = (
     "For generated (optimizer, 2-3 queries) real threads share the optimizer "
     "under a harness-owned scheduler (sys.settrace; exactly one thread runs; "
     "every line of reusable.py, presets.py and the search/_search/__call__/"
-    "tree/path/setup methods of hyper.py is a yield point). Quick: ALL "
-    "one-preemption schedules of each case + drawn two-preemption ones; "
-    "thorough: ALL schedules with <=2 preemptions. Oracle: every returned "
+    "tree/path/setup methods of hyper.py is a yield point). Quick: the "
+    "one-preemption schedules of each case (all, or a stride of <=120) + "
+    "drawn two-preemption ones; thorough: ALL one-preemption schedules and "
+    "all two-preemption ones (a stride of <=6000 pairs beyond ~110 yield "
+    "points). Oracle: every returned "
     "tree is complete and has the N/inputs/output/sizes of ITS query; every "
     "returned path is valid for its query. Non-trivial = sequence with >=2 "
     "different contractions where the hyper branch ran, or a schedule that "
@@ -96,7 +98,7 @@ def strategy(tier, sub=None):
 
 
 def budget(tier, sub=None):
-    return {"examples": 960 if tier == "quick" else 6400, "shards": 16, "timeout": 3000 if tier == "quick" else 6 * 3600}
+    return {"examples": 960 if tier == "quick" else 1920, "shards": 16, "timeout": 3000 if tier == "quick" else 6 * 3600}
 
 
 def build_optimizer(spec):
@@ -333,7 +335,14 @@ def run_sched(spec, state=None, tier="quick"):
             off = (spec.get("deep") or [(0, 0)])[0][0] % stride
             scheds = scheds[off::stride]
         if tier == "thorough":
-            scheds += [list(c) for c in itertools.combinations(range(1, steps + 1), 2)]
+            pairs = [list(c) for c in itertools.combinations(range(1, steps + 1), 2)]
+            if len(pairs) > 6000:
+                # beyond ~110 yield points: a deterministic stride through the
+                # two-preemption schedules instead of all of them
+                stride = -(-len(pairs) // 6000)
+                off = (spec.get("deep") or [(0, 0)])[0][1] % stride
+                pairs = pairs[off::stride]
+            scheds += pairs
         else:
             if steps:
                 scheds += [sorted({a % steps + 1, b % steps + 1}) for a, b in spec.get("deep", [])]
